@@ -320,15 +320,30 @@ def check_order_independence(cfg, hist1, hist2, probes, size, levy, entropy=55):
 
 
 def check_entropies_differ(n=32):
-    ws = []
-    for e in range(n):
-        bm = torchsde.BrownianInterval(0.0, 1.0, size=(4,), entropy=1000 + e, dtype=torch.float64)
-        ws.append(bm(0.0, 0.5))
+    """Pairwise different entropies - small consecutive ones, and wide ones that differ only in their high bits
+    (entropy is an integer of any width for numpy's SeedSequence: 64- and 128-bit seeds, base + (worker << 32)) -
+    give pairwise different samples, through BrownianInterval (both tree modes) and BrownianTree."""
+    ents = [1000 + e for e in range(n)] + [7, 7 + 2 ** 32, 7 + 2 ** 33, 7 + 2 ** 64, 7 + 2 ** 100, 2 ** 63 - 1, 2 ** 63,
+                                           12345678901234567890, 12345678901234567890 + 2 ** 64]
     fails = []
-    for i in range(n):
-        for j in range(i + 1, n):
-            if torch.equal(ws[i], ws[j]):
-                fails.append(("entropy_collision", dict(i=i, j=j)))
+    makers = [("interval", lambda e: torchsde.BrownianInterval(0.0, 1.0, size=(4,), entropy=e, dtype=torch.float64)),
+              ("dyadic", lambda e: torchsde.BrownianInterval(0.0, 1.0, size=(4,), entropy=e, dtype=torch.float64,
+                                                             tol=2.0 ** -6, halfway_tree=True)),
+              ("tree", lambda e: torchsde.BrownianTree(t0=0.0, w0=torch.zeros(4, dtype=torch.float64), t1=1.0, entropy=e,
+                                                       tol=2.0 ** -6))]
+    with warnings.catch_warnings():
+        warnings.simplefilter("ignore")
+        for name, mk in makers:
+            es = ents if name == "interval" else ents[n:]
+            try:
+                ws = [mk(e)(0.0, 0.5) for e in es]
+            except Exception as ex:  # noqa: BLE001
+                fails.append(("exception", dict(object=name, exc=type(ex).__name__, msg=str(ex)[:200])))
+                continue
+            for i in range(len(es)):
+                for j in range(i + 1, len(es)):
+                    if torch.equal(ws[i], ws[j]):
+                        fails.append(("entropy_collision", dict(object=name, entropies=[es[i], es[j]])))
     return fails
 
 
